@@ -267,6 +267,9 @@ def run_all(rep, run_instance, insts, budget, core_s, split_depth=4, shard=True)
             continue
         for pre in r['prefixes']:
             shards.append(tuple(r['inst'][:5]) + (None, 'run', pre))
+    import random
+    from .common import seed
+    random.Random(seed()).shuffle(shards)       # VERIF_SEED: order in which the shards are handed to the pool
     per = max(5.0, min(budget, core_s / max(1, len(shards))))
     shards = [s[:5] + (per,) + s[6:] for s in shards]
     rep.extra['shards'] = len(shards)
